@@ -125,7 +125,21 @@ def run_cases(ctx, rng, nbox, nx, sl):
         bounds = np.array(chunk, dtype=np.float64)
         for m in METHODS:
             sl.count(f"matrix-calls-{m}")
-            out = apply_bounds(mat.copy(), bounds, m)
+            # the same values in the memory layouts a caller may hand over: C-contiguous, Fortran-ordered
+            # (e.g. the transpose of a (dim, n) array), a strided view of a larger array
+            lay = int(rng.integers(0, 4))
+            if lay == 0:
+                arg = mat.copy()
+            elif lay == 1:
+                arg = np.asfortranarray(mat)
+            elif lay == 2:
+                big = np.zeros((2 * n, len(chunk)))
+                big[::2] = mat
+                arg = big[::2]
+            else:
+                arg = np.array([c[:n] for c in cols], dtype=np.float64).T
+            sl.count(f"layout-{['C', 'F', 'strided', 'transposed-view'][lay]}")
+            out = np.asarray(apply_bounds(arg, bounds, m))
             assert out.shape == mat.shape
             for j, (lo, hi) in enumerate(chunk):
                 for a in range(n):
